@@ -369,6 +369,48 @@ pub fn run_stress(args: &Args, mut out: Out) {
             Ok(_) => emit("LateConnectAccepted", 0, 0),
             Err(_) => emit("LateConnectRefused", 0, 0),
         }
+        // ---- C13: every open connection serves at most one further request and is then closed ----
+        // each connection that is still open gets up to three more requests, one after the other (the hook log
+        // shows how many of them were read; ServerSteps!AtMostOneMore / mustEnd judge it)
+        gates.open_all();
+        for (c, cl) in clients.iter_mut().enumerate() {
+            let Some(sock) = cl.sock.as_mut() else { continue };
+            let _ = sock.set_read_timeout(Some(Duration::from_millis(400)));
+            for _ in 0..3 {
+                cl.sent += 1;
+                let k = cl.sent;
+                emit("ClientSend", c as u64, u64::from(k));
+                if sock.write_all(format!("GET /c{c}/k{k}/ok HTTP/1.1\r\n\r\n").as_bytes()).is_err() {
+                    break;
+                }
+                // wait for this request's answer, the end of the stream, or (a connection stuck in an earlier
+                // partial request) the time-out
+                let mut got = Vec::new();
+                let mut buf = [0u8; 4096];
+                let mut closed = false;
+                loop {
+                    match sock.read(&mut buf) {
+                        Ok(0) => {
+                            closed = true;
+                            break;
+                        }
+                        Ok(n) => {
+                            got.extend_from_slice(&buf[..n]);
+                            if got.ends_with(b"\r\n\r\nok") {
+                                break;
+                            }
+                        }
+                        Err(_) => {
+                            closed = true;
+                            break;
+                        }
+                    }
+                }
+                if closed {
+                    break;
+                }
+            }
+        }
         // wind down: open all gates, close all clients, wait for the connection tasks to finish
         gates.open_all();
         for c in clients.iter_mut() {
